@@ -508,23 +508,39 @@ def rule_eq_derived(repo, adts):
         if imp["derived"]:
             R.ok(sample={"type": ap, "impl": "derive(PartialEq)", "fields": [f["name"] for f in F.adts[ap]["variants"][0]["fields"]] if ap in F.adts else None})
             continue
-        # hand-written: every field must be compared
+        # hand-written: accepted only when it is recognisably the conjunction of `==` over every field (truth table);
+        # anything else (byte loops, folds, …) fails closed with the idiom named — an unrecognised == cannot be certified
         eqs = [F.bodies.get(p) for p in imp["items"] if p.endswith("::eq")]
         nfields = len(F.adts[ap]["variants"][0]["fields"])
-        seen = set()
+        ok = False
+        why = "no eq body"
         for b in eqs:
             if b is None:
                 continue
-            for blk in b.blocks:
-                for st in blk["stmts"]:
-                    if st["k"] == "assign" and st["rv"]["k"] in ("ref", "use"):
-                        pl = st["rv"].get("place") or st["rv"].get("op", {}).get("place")
-                        if pl:
-                            for e in pl["p"]:
-                                if isinstance(e, dict) and "f" in e:
-                                    seen.add(e["f"])
-                                    break
-        R.check(len(seen) >= nfields, "eq:%s:fields" % ap, "hand-written == for %s reads %d of %d fields" % (ap, len(seen), nfields))
+            tb = repo.tb(b)
+            atoms = paths.collect_atoms(b, tb)
+            fld = {}
+            for a in atoms:
+                x = y = None
+                if a[0] == "ord":
+                    x, y = a[1], a[2]
+                elif a[0] == "bool" and a[1][0] == "call" and a[1][1].name in ("eq", "ne") and len(a[1][2]) == 2:
+                    x, y = strip(a[1][2][0]), strip(a[1][2][1])
+                if x is not None and x[0] == "field" and y[0] == "field" and x[2] == y[2] and strip(x[1]) in (("init", ("deref", 1)), ("param", 1)) and strip(y[1]) in (("init", ("deref", 2)), ("param", 2)):
+                    fld[x[2]] = a
+            rv = tb.return_value()
+            for x in alts(rv):
+                if x[0] == "call" and x[1].name in ("eq",) and len(x[2]) == 2:
+                    l, r_ = strip(x[2][0]), strip(x[2][1])
+                    if l[0] == "field" and r_[0] == "field" and l[2] == r_[2]:
+                        fld.setdefault(l[2], ("ret",))
+            loops = any(b.dominates(h, u) for u in b.reachable() for h in b.succ()[u])
+            if sorted(fld) == list(range(nfields)) and not loops and len(atoms) <= nfields:
+                ok = True
+            else:
+                why = "compares fields %s of %d%s" % (sorted(fld), nfields, ", contains a loop" if loops else "")
+        R.check(ok, "eq:%s:hand-written" % ap, "hand-written == for %s is not recognisably the field-wise conjunction (%s)" % (ap, why),
+                sample={"type": ap, "impl": "hand-written field-wise conjunction"})
     return R.finish()
 
 
